@@ -1,7 +1,7 @@
 (* C21 — Work limits are respected and every queued request eventually runs.
    Only statements; proofs are in GS.TaskQueueProofs. *)
 From Coq Require Import List NArith ZArith Bool Arith.
-From GS Require Import Base TaskQueue TaskQueueProofs TaskQueueLive TaskQueueInv TaskQueueMon.
+From GS Require Import Base TaskQueue TaskQueueProofs TaskQueueLive TaskQueueInv TaskQueueMon TaskQueueRank.
 Import ListNotations.
 Open Scope N_scope.
 
@@ -59,18 +59,15 @@ Theorem C21_refuted : forall cfg n,
 Proof. exact refuted. Qed.
 Print Assumptions C21_refuted.
 
-(* C21_progress_partial — what IS true of "eventually executed".  Full statement (kept visible, not
-   proved as a whole): "if from some point on no request is submitted, every queued, non-removed
-   request is eventually executed".  Proved here, for every configuration, every state (reachable or
-   not) and every tracker the heap may present:
+(* C21_progress_partial — the no-stuck lemmas, for every configuration, every state (reachable or not) and
+   every tracker the heap may present:
      (a) a worker at the loop top, and a waiting worker that receives a tick, START A TASK whenever
          some tracker holds an eligible request (queued, peer not frozen, peer below its maximum):
          the root the comparator allows is then itself eligible — a free worker never idles past an
          eligible request, whichever peer it belongs to;
      (b) every tick brings each frozen tracker strictly closer to being thawed.
-   Not proved: the ranking function over whole runs that turns (a)+(b)+"every running task completes"
-   into termination of the backlog, and that the heap always has a root to present. The driver runs
-   every generated history to completion (monitor_C21_drained) as a test of that part. *)
+   They are composed into the statement for finite arrivals in C21_finite_arrivals below (ranking
+   function over whole runs, existence of a heap root in C21_heap_has_root). *)
 Theorem C21_progress_partial :
   (forall cfg s w top q tq,
      nth_error (st_w s) w = Some WReady -> In (q, tq) (st_trk s) -> eligible (c_maxpp cfg) tq ->
@@ -118,6 +115,54 @@ Theorem C21_conservation : forall cfg w ls s e,
     (length (pendT (st_trk s) p) + length (actT (st_trk s) p) + count_peer p (gh_done s) + count_peer p (gh_removed s))%nat.
 Proof. exact conservation. Qed.
 Print Assumptions C21_conservation.
+
+(* C21_heap_has_root: DefaultPeerComparator is a strict order (irreflexive, transitive), so in every
+   reachable state with at least one tracker some tracker is not ranked below any other, and PopTasks
+   presented with it returns: a pop is always possible (the [top] parameter of the pop labels is never
+   an empty choice). *)
+Theorem C21_heap_has_root : forall cfg w ls s e,
+  run cfg (init w) ls = Some (s, e) -> st_trk s <> [] ->
+  exists p r, is_top (st_trk s) p = true /\ pop_tasks cfg (st_trk s) (Some p) = Some r.
+Proof.
+  intros cfg w ls s e H Hne. pose proof (run_wf cfg ls _ _ _ (wf_init w) H) as Hwf.
+  destruct (exists_top _ Hne (wf_keys _ _ _ Hwf)) as [p Hp]. destruct (pop_total cfg _ _ Hp) as [r Hr]. eauto.
+Qed.
+Print Assumptions C21_heap_has_root.
+
+(* C21_finite_arrivals — "if from some point on no request is submitted, every queued, non-removed request
+   is eventually executed", with the fairness assumption spelled out.  [rank] = 3 x queued tasks + sum of
+   freeze values + number of trackers + 2 per executing worker + 1 per worker at the loop top + 1 for a
+   pending work signal.
+     (a) no label other than a push ever raises the rank (pops at the loop top, signal wake-ups and
+         completions strictly lower it);
+     (b) in every reachable state with at least one worker and something queued, a worker / ticker /
+         completion label (a pop by a worker at the loop top, a tick taken by a waiting worker, the
+         completion of an executing task) is ENABLED that strictly lowers the rank;
+     (c) following such steps the backlog is empty after at most [rank s] of them, and exactly as many
+         tasks were started as were queued (pushes and removes excluded: each queued task is started
+         once).
+   Fairness assumption (not provable in the model, named here): workers are scheduled, the thaw
+   ticker keeps firing while a worker waits, and every executing task completes — i.e. a strictly
+   rank-lowering worker/ticker/completion step that is enabled is eventually taken.  Under it (a) bounds
+   the number of such steps by the rank at the last push and (b) says the run cannot stop earlier. *)
+Theorem C21_finite_arrivals :
+  (forall cfg s l s' e, is_push l = false -> step cfg s l = Some (s', e) -> (rank s' <= rank s)%nat) /\
+  (forall cfg w ls s e, (0 < w)%nat -> run cfg (init w) ls = Some (s, e) -> (0 < pending_total s)%nat ->
+     exists l s1 e1, worker_label l = true /\ step cfg s l = Some (s1, e1) /\ (rank s1 < rank s)%nat) /\
+  (forall cfg w ls s e, (0 < w)%nat -> run cfg (init w) ls = Some (s, e) ->
+     exists ls' s' e', forallb worker_label ls' = true /\ run cfg s ls' = Some (s', e') /\ pending_total s' = O /\
+                       (length ls' <= rank s)%nat /\ length (filter is_start e') = pending_total s).
+Proof.
+  split; [|split].
+  - intros cfg s l s' e Hl Hs. exact (proj1 (step_rank cfg s l s' e Hl Hs)).
+  - intros cfg w ls s e Hw Hr Hp. apply progress_step; auto.
+    + exact (run_wf cfg ls _ _ _ (wf_init w) Hr).
+    + rewrite (run_workers _ _ _ _ _ Hr). simpl. now rewrite repeat_length.
+  - intros cfg w ls s e Hw Hr. apply (drain cfg (rank s) s); auto.
+    + exact (run_wf cfg ls _ _ _ (wf_init w) Hr).
+    + rewrite (run_workers _ _ _ _ _ Hr). simpl. now rewrite repeat_length.
+Qed.
+Print Assumptions C21_finite_arrivals.
 
 (* ---- non-vacuity ---- *)
 (* two workers, per-peer maximum 1: peer 1's second request waits for the first although a worker is
